@@ -1,8 +1,8 @@
 package rules
 
 import (
-	"go/types"
 	"go/token"
+	"go/types"
 	"strings"
 
 	"golang.org/x/tools/go/ssa"
@@ -704,7 +704,6 @@ func stripBytes(v ssa.Value) ssa.Value {
 	}
 	return v
 }
-
 
 func c17PassSites(e *Env, m *mwModel) {
 	r := e.R
